@@ -27,6 +27,11 @@ CLAIMS.update({
          "but PSEOF, yields positions that are monotone and inside the input, makes bounded progress, and gives the same token sequence for BUFSIZ 4096 and every smaller size. N=3 quick, 4 thorough.",
          "4.C14"),
 })
+CLAIMS["C04"] = ("bounded symbolic execution (symx) of the real PDFPage.get_pages / create_pages / __init__ and PDFPageInterpreter.process_page + begin_page",
+         "For every page_numbers container (None, list, set of up to 3 symbolic ints) and every symbolic maxpages the pages returned are exactly the selected ones below the limit; for every "
+         "tree of up to 3 (thorough 4) nodes with symbolic Kids (repeats, cycles), Type and placement (absent/direct/indirect, incl. falsy values) of each inheritable attribute the pages equal a "
+         "pre-order DFS with nearest-ancestor inheritance; Rotate is normalised for every int; for every real MediaBox and Rotate=90k+360t the page CTM is the clockwise rotation onto (0,0,W,H).",
+         "4.C04")
 NA = {}
 def main():
     props = [json.loads(l) for l in open(os.path.join(ROOT, "properties.jsonl"))]
